@@ -206,6 +206,9 @@ func Discharge(cfg *SolverCfg, obls []*Obligation) {
 					return
 				default:
 					o.Status = "failed-unknown"
+					if os.Getenv("GVC_WHY") != "" {
+						explainMissing(cfg, o.Name, ground, as, g)
+					}
 					if d := os.Getenv("GVC_DUMPFAIL"); d != "" {
 						os.WriteFile(fmt.Sprintf("%s/fail_%d_%d.smt2", d, o.Path, gi+1), []byte(q), 0o644)
 					}
@@ -312,6 +315,28 @@ func splitGoal(g *Term) []*Term {
 			out = append(out, Implies(g.Args[0], c))
 		}
 		return out
+	case "or":
+		// (or a (and b1 .. bn)) splits like (=> (not a) (and b1 .. bn))
+		for i, d := range g.Args {
+			if d.Op != "and" && d.Op != "=>" {
+				continue
+			}
+			sub := splitGoal(d)
+			if len(sub) == 1 {
+				continue
+			}
+			var rest []*Term
+			for j, o := range g.Args {
+				if j != i {
+					rest = append(rest, Not(o))
+				}
+			}
+			var out []*Term
+			for _, c := range sub {
+				out = append(out, Implies(And(rest...), c))
+			}
+			return out
+		}
 	}
 	return []*Term{g}
 }
@@ -330,4 +355,60 @@ func groundModel(cfg *SolverCfg, assump []*Term, goal *Term) string {
 		return a.out
 	}
 	return ""
+}
+
+
+// explainMissing (debug aid): the ground stage answered sat; find a quantified assumption whose brute-force
+// instantiation (all ground Int select indices of the query and the skolems, minus every rest) makes it unsat.
+func explainMissing(cfg *SolverCfg, name string, ground, all []*Term, goal *Term) {
+	seen := map[[2]int]bool{}
+	sels := collectSelects(append(append([]*Term{}, ground...), goal), seen, 400)
+	var idxs []*Term
+	dup := map[*Term]bool{}
+	for _, g := range sels {
+		if !dup[g.idx] && !g.ite {
+			dup[g.idx] = true
+			idxs = append(idxs, g.idx)
+		}
+	}
+	fmt.Printf("  WHY %s: %d ground selects, %d distinct indices\n", name, len(sels), len(idxs))
+	for qi, a := range all {
+		var guard *Term
+		q := a
+		if a.Op == "=>" && a.Args[1].Op == "forall" {
+			guard, q = a.Args[0], a.Args[1]
+		}
+		if q.Op != "forall" || len(q.Bound) != 1 || q.Bound[0].Sort != IntSort {
+			continue
+		}
+		b := q.Bound[0]
+		rests := []*Term{IntLit(0)}
+		for _, p := range selectPatterns(q.Args[0], b) {
+			rests = append(rests, p.rest)
+		}
+		var insts []*Term
+		n := 0
+		for _, r := range rests {
+			for _, g := range idxs {
+				if n > 600 {
+					break
+				}
+				n++
+				inst := Substitute(q.Args[0], map[string]*Term{b.Name: Sub(g, r)})
+				if guard != nil {
+					inst = Implies(guard, inst)
+				}
+				insts = append(insts, inst)
+			}
+		}
+		qa := QueryGround(append(append([]*Term{}, ground...), insts...), goal)
+		aa := solveGround(cfg, qa)
+		if aa.status == "unsat" {
+			qs := q.String()
+			if len(qs) > 4000 {
+				qs = qs[:4000]
+			}
+			fmt.Printf("  WHY   under-instantiated assumption #%d (%d brute-force instances suffice): %s\n", qi, len(insts), qs)
+		}
+	}
 }
